@@ -21,9 +21,10 @@
 //! does not forbid errors).
 
 use std::cell::RefCell;
-use std::collections::HashMap;
+use std::collections::{BTreeMap, HashMap};
 use std::path::{Path, PathBuf};
 use std::sync::atomic::{AtomicU64, AtomicUsize, Ordering};
+use std::sync::Mutex;
 
 use mcx::report::{machinery, Ctx, Violation};
 use mcx::sweep::{self, ItemOut};
@@ -156,6 +157,8 @@ struct Fam {
 
 /// One (shape, N) block of the space with its salt table.
 struct Block {
+    /// position in the family (simplest shapes first; tie-break for witnesses)
+    ord: usize,
     shape: Shape,
     n: usize,
     nd: usize,
@@ -223,7 +226,7 @@ fn ancestors(parents: &[Vec<usize>]) -> Vec<u32> {
 fn build_block(shape: Shape, nd: usize, seed: u64, odb: &git2::Odb) -> Block {
     let n = shape.parents.len();
     let anc = ancestors(&shape.parents);
-    let mut b = Block { shape, n, nd, anc, prefix: vec![], table: HashMap::new(), fams: vec![], salts_searched: 0, required: 0 };
+    let mut b = Block { ord: 0, shape, n, nd, anc, prefix: vec![], table: HashMap::new(), fams: vec![], salts_searched: 0, required: 0 };
     let na = b.n_assignments();
     let mut prefix = Vec::with_capacity(na as usize + 1);
     let mut acc = 0u64;
@@ -289,6 +292,8 @@ struct Env {
     blocks: Vec<Block>,
     offsets: Vec<u64>,
     quorum_calls: AtomicU64,
+    /// cheapest witness per noteworthy non-violating outcome (reported as observations)
+    notes: Mutex<BTreeMap<String, (u64, Value)>>,
 }
 
 impl Env {
@@ -451,7 +456,7 @@ impl Item<'_> {
         let used = Block::tip_mask(&self.tips);
         let closure = bits(used).iter().fold(0u32, |m, c| m | self.block.anc[*c]);
         let size = 100 * self.tips.iter().flatten().count() as u64 + 10 * closure.count_ones() as u64 + self.block.nd as u64 * 3 + self.threshold as u64;
-        (size << 40) | (mcx::fnv64(self.block.shape.name.as_bytes()) & 0xff) << 32 | (self.index & 0xffff_ffff)
+        (size << 40) | (self.block.ord as u64 & 0xff) << 32 | (self.index & 0xffff_ffff)
     }
 }
 
@@ -497,7 +502,10 @@ fn judge(it: &Item, ans: &Answer, path: &str) -> (Vec<Violation>, &'static str) 
                         .cost(it.cost()),
                     );
                 }
-                if let Some(x) = s.iter().copied().find(|x| *x != h && anc[*x] & (1 << h) != 0) {
+                // The clauses that relate the head to S are reported on their own only when the head
+                // itself is sufficiently supported; otherwise the line above already covers the item.
+                if sup < t {
+                } else if let Some(x) = s.iter().copied().find(|x| *x != h && anc[*x] & (1 << h) != 0) {
                     vs.push(
                         Violation::new(
                             "C03/supported-descendant-ignored",
@@ -598,6 +606,16 @@ fn eval_item(env: &Env, block: &Block, li: u64, seed: u64) -> ItemOut {
     let present = it.tips.iter().flatten().count();
     let class = if present >= 2 { mcx::fnv64(format!("{}/{:?}/{:?}/{}", block.shape.name, it.tips, it.order, it.threshold).as_bytes()) | 1 } else { 0 };
     let agree = if a1 == a2 { "" } else { "|modify_vote-differs" };
+    // Allowed by the statement but worth showing: an error although S has a maximum (the answer
+    // then depends on the rank order of the object ids).
+    if model == "S-has-max" && !matches!(a1, Answer::Head(..)) {
+        let key = format!("{}-although-S-has-max", a1.label());
+        let mut notes = env.notes.lock().unwrap();
+        let e = notes.entry(key).or_insert((u64::MAX, Value::Null));
+        if it.cost() < e.0 {
+            *e = (it.cost(), it.witness("refs"));
+        }
+    }
     ItemOut::new(class, format!("{}|{model}{agree}", a1.label())).with(vs)
 }
 
@@ -686,6 +704,7 @@ fn make_env(root: &Path, blocks_spec: Vec<(Shape, usize)>, seed: u64) -> Env {
             .collect();
         handles.into_iter().map(|h| h.join().unwrap()).collect()
     });
+    let blocks: Vec<Block> = blocks.into_iter().enumerate().map(|(i, b)| Block { ord: i, ..b }).collect();
     drop(odb);
     let mut offsets = vec![0u64];
     for b in &blocks {
@@ -701,6 +720,7 @@ fn make_env(root: &Path, blocks_spec: Vec<(Shape, usize)>, seed: u64) -> Env {
         blocks,
         offsets,
         quorum_calls: AtomicU64::new(0),
+        notes: Mutex::new(BTreeMap::new()),
     }
 }
 
@@ -823,6 +843,10 @@ fn main() {
     cov.insert("permutation_coverage_complete".into(), json!(env.blocks.iter().all(|b| b.table.len() == b.required)));
     cov.insert("quorum_calls_stage1".into(), json!(env.quorum_calls.load(Ordering::Relaxed)));
     cov.insert("e2e_evaluations".into(), json!(e2e_evals));
+    cov.insert(
+        "observations_not_violations".into(),
+        json!(env.notes.lock().unwrap().iter().map(|(k, (_, w))| json!({"outcome": k, "smallest_example": w})).collect::<Vec<_>>()),
+    );
     cov.insert("shapes".into(), json!(env.blocks.iter().map(|b| json!({"name": b.shape.name, "parents": b.shape.parents})).collect::<Vec<_>>()));
     let violations = std::mem::take(&mut st.violations);
     WORKER.with(|w| w.borrow_mut().take());
